@@ -55,9 +55,12 @@ func main() {
 					{P: percseq.Params{Name: "lifetime", Cfg: small, Keys: []string{"a", "b"}, Txns: tx, Ops: life,
 						MaxReq: 12, Namespaced: true, NSPerDB: 128, Dedup: true}, Depth: 12},
 					{P: percseq.Params{Name: "lifetime-two-keys", Cfg: small, Keys: []string{"a", "b"}, Txns: tx, Ops: lifeWide,
-						MaxReq: 8, Namespaced: true, NSPerDB: 128, Dedup: true}, Depth: 8},
+						MaxReq: 10, Namespaced: true, NSPerDB: 128, Dedup: true}, Depth: 10},
 					{P: percseq.Params{Name: "placement", Cfg: small, Keys: []string{"a"}, Txns: tx, Ops: place,
-						MaxReq: 4, MaxMaint: 5, Maint: []string{"rf", "l0-base", "ingest-drain", "ingest-keep", "l0-l0", "reopen"}, Dedup: true}, Depth: 9},
+						MaxReq: 5, MaxMaint: 5, Maint: []string{"rf", "l0-base", "ingest-drain", "ingest-keep", "l0-l0", "reopen"}, Dedup: true}, Depth: 10},
+					// enough flushes for the L0->L0 merge (needs >= 4 L0 tables) and what follows it
+					{P: percseq.Params{Name: "placement-l0-l0", Cfg: small, Keys: []string{"a"}, Txns: tx, Ops: []string{"pw:1:a", "cm:1:a:25", "rb:1:a", "pw:2:a", "rb:2:a"},
+						MaxReq: 5, MaxMaint: 7, Maint: []string{"rf", "l0-l0", "l0-base", "ingest-drain"}, Dedup: true}, Depth: 12},
 					{P: percseq.Params{Name: "placement-fine-art", Cfg: dbh.Config{Engine: "art", Buckets: 2}, Keys: []string{"a"}, Txns: tx, Ops: place[:4],
 						MaxReq: 4, MaxMaint: 5, Maint: []string{"rotate", "flush", "l0-base", "ingest-drain", "ingest-keep", "reopen"}, Dedup: true}, Depth: 9},
 				}
